@@ -85,6 +85,15 @@ UAKeyedPlain == {Arr(<<Obj(("1" :> Num(R_1))), Obj(("1" :> Num(R_1)))>>), Arr(<<
                  Arr(<<Obj(("0" :> Num(R_0))), Obj(("0" :> Num(R_0)))>>), Arr(<<Obj(("1" :> Str("1"))), Obj(("1" :> Num(R_1)))>>),
                  Arr(<<Obj(("1" :> Num(R_1)) @@ ("0" :> Num(R_0))), Obj(("0" :> Num(R_0)) @@ ("1" :> Num(R_1)))>>)}
 UAKeyedReps == UNION {RepsOf(v, {"float64"}, {"any"}, {"any", "namedkey", "numberkey"}) : v \in UAKeyedPlain}
+\* objects with MANY members (9, 12): equal ones are duplicates however many members there are
+WKeys9 == {"a", "b", "c", "ab", "ba", "abc", "aa", "z", "B"}
+WObj(ks, x) == Obj([k \in ks |-> x])
+UAWidePlain == {Arr(<<WObj(WKeys9, Num(R_1)), WObj(WKeys9, Num(R_1))>>), Arr(<<WObj(WKeys9, Num(R_1)), Num(R_1), WObj(WKeys9, Num(R_1))>>),
+                Arr(<<WObj(WKeys9, Num(R_1)), Obj([k \in WKeys9 |-> IF k = "z" THEN Num(R_2) ELSE Num(R_1)])>>),
+                Arr(<<WObj(WKeys9 \cup {"A", "10", "9"}, Num(R_2)), WObj(WKeys9 \cup {"A", "10", "9"}, Num(R_2))>>)}
+UAWideReps == UNION {RepsOf(v, {"float64"}, {"any"}, {"any", "namedkey"}) : v \in {x \in UAWidePlain : Len(x.e) = 2}}
+              \cup UNION {RepsOf(v, {"jsonNumber"}, {"any"}, {"any"}) : v \in UAWidePlain}
+              \cup UNION {RepsOf(v, {"float64"}, {"any"}, {"any"}) : v \in UAWidePlain}
 UAReps(v) == RepsOf(v, IF K >= 2 THEN {"float64", "int", "jsonNumber", "uint64"} ELSE {"float64", "jsonNumber", "negzero", "uint64"}, {"any", "arrayany", "array"}, IF K >= 2 THEN {"any", "typed"} ELSE {"any"})
 UASchemas == <<[uniqueItems |-> TRUE],
                [enum |-> <<Num(R_1), Str("a"), Arr(<<Num(R_m1)>>), Obj([a |-> Num(R_1)]), Arr(<<Num(R_1), Num(R_m1)>>), Null>>],
@@ -167,7 +176,7 @@ RVSeq == IF Family = "RV" THEN SetToSeq(RVReps(0)) ELSE <<>>
 
 Cases ==
   CASE Family = "EQ" -> EQPool(0)
-    [] Family = "UA" -> UNION {UAReps(v) : v \in UAPlain(0)} \cup UACollReps \cup UABytesReps \cup UANestedReps \cup UAKeyedReps
+    [] Family = "UA" -> UNION {UAReps(v) : v \in UAPlain(0)} \cup UACollReps \cup UABytesReps \cup UANestedReps \cup UAKeyedReps \cup UAWideReps
     [] Family = "RV" -> {RVSchemas[i] : i \in DOMAIN RVSchemas}
     [] Family = "HU" -> {Arr(e) : e \in UNION {[1..n -> {Num(R_1), Num(R_2), Str("a")}] : n \in 0..4}}
 
